@@ -42,6 +42,7 @@ FUNCTIONS = {
     "datasetBaseInit": ("src/sedpack/io/dataset_base.py", "DatasetBase.__init__"),
     "fillerCtxInit": ("src/sedpack/io/dataset_filler.py", "_DatasetFillerContext.__init__"),
     "getNewShard": ("src/sedpack/io/dataset_filler.py", "_DatasetFillerContext._get_new_shard"),
+    "datasetCreate": ("src/sedpack/io/dataset.py", "Dataset.create"),
     "imapUnordered": ("src/sedpack/io/itertools/lazy_pool.py", "LazyPool.imap_unordered"),
     "collectorRun": ("src/sedpack/io/itertools/lazy_pool.py", "Collector.run"),
     # the reading side: for these, a store whose target is rooted at `self` is emitted as `selfset:<attr>` / `selfaug:<attr>`
@@ -58,7 +59,7 @@ FUNCTIONS = {
 READERS = {"shardInfoIterator", "shardInfoWalk", "shardPathsDataset", "asNumpyCommon", "asNumpyIterator", "asNumpyIteratorConcurrent", "asNumpyIteratorAsync",
            "asNumpyIteratorRust", "asTfdataset"}
 MARKED = {"poolExit", "poolReset", "shuffleBuffer", "shuffleBufferAsync", "roundRobin", "roundRobinAsync", "getHashFunction", "hashChecksums",
-          "datasetBaseInit", "fillerCtxInit", "getNewShard", "imapUnordered", "collectorRun"} | READERS
+          "datasetBaseInit", "fillerCtxInit", "getNewShard", "imapUnordered", "collectorRun", "datasetCreate", "datasetWriteConfig"} | READERS
 
 
 def _find(tree: ast.Module, qual: str):
